@@ -52,8 +52,9 @@ macro_rules! kv_pow_contract {
 			if e == <$t>::INFINITY { return if b > 1.0 { r == <$t>::INFINITY } else { r == 0.0 }; }
 			if e == <$t>::NEG_INFINITY { return if b > 1.0 { r == 0.0 } else { r == <$t>::INFINITY }; }
 			// finite b > 0, b != 1, finite e
-			// magnitude facts for the decibel laws (base 10): 10^e for e in [-2, 0] is >= 0.0099, for e in [0, 1] it is <= 10.001
+			// magnitude facts for the decibel laws (base 10): 10^e for e in [-2, 0] is >= 0.0099, for e in [-3, 0] >= 0.00099, for e in [0, 1] it is <= 10.001
 			if b == 10.0 && e >= -2.0 && e < 0.0 && !(r >= 0.0099) { return false; }
+			if b == 10.0 && e >= -3.0 && e < 0.0 && !(r >= 0.00099) { return false; }
 			if b == 10.0 && e > 0.0 && e <= 1.0 && !(r <= 10.001) { return false; }
 			if (b > 1.0) == (e > 0.0) { r >= 1.0 } else { r <= 1.0 }
 		}
